@@ -462,6 +462,11 @@ class ChirpZTransformExecutor:
         if not isinstance(Q, Iterable):
             Q = (Q, Q)
 
+        if ary.dtype.kind not in 'fc':
+            # integer or boolean input (e.g. a binary aperture mask): the chirps and the kernel
+            # must be built in floating point, as the matrix DFT does
+            ary = ary.astype(config.precision)
+
         dtype = ary.dtype
 
         m, n = ary.shape
